@@ -188,6 +188,56 @@ def run(ctx):
                 for k in list(sys.modules):
                     if k.split(".")[0] == pkg:
                         del sys.modules[k]
+        # a keep that is not reached (in a branch that is not taken, in a loop that does not run): the evaluation keeps nothing at
+        # that path, so the path goes on serving the value of the latest evaluation that did keep it - and does not resolve at all
+        # on a store where nothing was ever kept there
+        for bi, store_kind in enumerate(["local", "memory", "local_lru"]):
+            base = tempfile.mkdtemp(prefix="ddsverif_c04b_")
+            pkg = "c4b_%d_%d" % (os.getpid(), bi)
+            try:
+                real.reset_process_state()
+                real.set_store(store_kind, os.path.join(base, "si"), os.path.join(base, "sd"))
+                last = {}
+                for step, (flag, n, tag) in enumerate([(False, 0, "t0"), (True, 2, "t1"), (False, 0, "t2"), (True, 1, "t3"), (False, 3, "t3")]):
+                    src = ("import dds\nfrom ddsverif_rt import log, term\n\nFLAG = %s\nN = %d\n\n"
+                           "def g():\n    return term('g', %r)\n\ndef h():\n    return term('h', %r)\n\n"
+                           "def f0():\n    if FLAG:\n        a = dds.keep('/b/a', g)\n    else:\n        a = None\n"
+                           "    b = [dds.keep('/b/loop', h) for _ in range(N)]\n    return term('f0', a, b)\n" % (flag, n, tag, tag))
+                    os.makedirs(os.path.join(base, pkg), exist_ok=True)
+                    open(os.path.join(base, pkg, "__init__.py"), "w").close()
+                    with open(os.path.join(base, pkg, "main.py"), "w") as fh:
+                        fh.write(src)
+                    real.load_world(base, pkg + ".main", None, accept=pkg)
+                    r = real.run({"kind": "eval", "fun": "f0"})
+                    res.evaluations += 1
+                    res.count("unreached_keep_steps")
+                    res.nontrivial("unreached keep %s %d" % (store_kind, step))
+                    if flag:
+                        last["/b/a"] = "g(%s)" % tag
+                    if n > 0:
+                        last["/b/loop"] = "h(%s)" % tag
+                    bad = None
+                    if r["error"] is not None:
+                        bad = "the evaluation fails: %s" % (r["error"],)
+                    else:
+                        for pth in ("/b/a", "/b/loop"):
+                            got = real.load_path(pth)
+                            if pth in last:
+                                if got["error"] is not None or got["value"] != last[pth]:
+                                    bad = "path %s: the latest evaluation that kept it returned %r; after an evaluation that did not reach the keep, dds.load gives %s" % (
+                                        pth, last[pth], got)
+                            elif got["error"] is None:
+                                bad = "path %s was never kept (the keep was not reached), yet dds.load answers %r" % (pth, got["value"])
+                            if bad:
+                                break
+                    if bad:
+                        res.violations.append({"what": bad, "input": {"source": src, "store": store_kind, "step": step}, "kf": None})
+                        break
+            finally:
+                shutil.rmtree(base, ignore_errors=True)
+                for k in list(sys.modules):
+                    if k.split(".")[0] == pkg:
+                        del sys.modules[k]
     finally:
         if fresh[0] is not None:
             fresh[0].close()
